@@ -407,13 +407,32 @@ class Walker:
         return res
 
     # ------------------------------------------------------------------
-    def escape_types(self, callee, recv):
+    def default_bind(self, callee, call_val):
+        """Constant defaults of parameters the call does not supply (context for summaries)."""
+        a = callee.node.args
+        pos = [x.arg for x in a.posonlyargs + a.args]
+        defaults = dict(zip(pos[len(pos) - len(a.defaults):], a.defaults))
+        for x, d in zip(a.kwonlyargs, a.kw_defaults):
+            if d is not None:
+                defaults[x.arg] = d
+        npos = len(call_val.args) + (1 if (callee.cls is not None and not callee.is_static()) else 0)
+        supplied = set(pos[:npos]) | {k.arg for k in call_val.keywords if k.arg}
+        if any(k.arg is None for k in call_val.keywords) or any(isinstance(x, ast.Starred) for x in call_val.args):
+            return None
+        out = {}
+        for nm, d in defaults.items():
+            if nm not in supplied and isinstance(d, ast.Constant):
+                out[nm] = d
+        return out or None
+
+    def escape_types(self, callee, recv, bind=None):
         """Exception types that may escape a repository function."""
         if callee.cls is None or callee.is_static():
             recv = None
         elif recv is None:
             recv = callee.cls
-        key = (callee.fq, recv.fq if recv is not None else None)
+        key = (callee.fq, recv.fq if recv is not None else None,
+               tuple(sorted((k, repr(v.value)) for k, v in bind.items())) if bind else None)
         if key in self._escape_cache:
             return self._escape_cache[key]
         if key in self._escape_stack or len(self._escape_stack) > MAX_INLINE_DEPTH:
@@ -424,7 +443,7 @@ class Walker:
             w._escape_cache = self._escape_cache
             w._escape_stack = self._escape_stack
             try:
-                ps = w.paths(callee, recv=recv)
+                ps = w.paths(callee, recv=recv, bind=bind)
             except AnalysisError:
                 res = ('Exception',)
             else:
